@@ -589,6 +589,21 @@ def run(rep):
                                                                                json.dumps(r[1], sort_keys=True) if r[0] == "ok" else r),
                           {"kind": "instr", "lines": [line], "expect": exp, "src": src})
 
+    # ---------------- (D) an object used (forced, manifested, assert-checked) before AND after being extended:
+    # `self`/`$`/asserts must be those of each final combination (closed-form expectations, lead's templates)
+    import gen_core as G
+    import core_cmp as C
+    lb = G.late_binding_cases(rng, 150 if quick else 5000)
+    lsrc = [G.to_jsonnet(p) for p, _ in lb]
+    lout = [C.canon_impl(x) for x in vlib.impl([vlib.eval_line(x) for x in lsrc])]
+    for (p, exp), src, a in zip(lb, lsrc, lout):
+        rep.count("lb:" + src, True)
+        rep.bump("D.forced-then-extended")
+        want = "ok " + C.canon_json(exp[1]) if exp[0] == "ok" else "err eval %s %s" % (exp[1], vlib.hx(exp[2]))
+        if C.norm(a) != C.norm(want):
+            rep.violation("lb:" + src, "object forced before extension: expected %s, implementation answered %s" % (want[:120], a[:120]),
+                          {"kind": "lb", "lines": [vlib.eval_line(src)], "src": src, "expected": want})
+
 
 def rich_oracle(g, res):
     ne = len(g["exprs"])
@@ -668,5 +683,10 @@ def replay(r):
         rr = ev(outs[0])
         if rr[0] != "ok" or rr[1] != rec["expect"]:
             bad = "expected %r got %r" % (rec["expect"], rr)
+    elif kind == "lb":
+        import core_cmp as C
+        got = C.canon_impl(outs[0])
+        if C.norm(got) != C.norm(rec["expected"]):
+            bad = "expected %s got %s" % (rec["expected"][:200], got[:200])
     print("oracle:", bad)
     return 1 if (bad or rc) else 0
